@@ -124,6 +124,11 @@ impl ResourceAllocator {
             let Some(pool) = pools.get(entry.resource_id.as_usize()) else {
                 return false;
             };
+            if let ResourcePool::Empty = pool {
+                // The worker does not have this resource; nothing can be claimed from it,
+                // not even `all` of it
+                return false;
+            }
             if let ResourcePool::Groups(_) = pool
                 && entry.request.is_relevant_for_coupling()
             {
